@@ -118,6 +118,7 @@ def clause_hydrate_first(prog, rep):
 
 
 PARSERS = ("parse", "from_str", "from_str_radix", "from_hex")
+LISTING = ("next", "into_iter", "iter", "list_group_snapshots")
 UNWRAPPERS = ("ok", "branch", "unwrap", "expect", "unwrap_or_default", "ok_or", "ok_or_else", "map_err", "unwrap_or", "into_inner")
 
 
@@ -157,6 +158,13 @@ def clause_hydration_sources(prog, rep):
                 calls, params = _sources(prog, f, o["p"][0])
                 n += 1
                 bad = [c.name for c in calls if c.name not in PARSERS]
+                if bad and fld in ("snapshot_name", "group_id") and all(c.name in LISTING or K.is_storage_trait_call(c, "list_group_snapshots") for c in calls if c.name not in PARSERS):
+                    # the hydrating loop written out in this function (the parser folded into it): the value is the listed name itself —
+                    # every plain value on its copy chain is a string / group id, never a number (the row's creation time)
+                    chain = [x for x in A.copy_sources(f, o["p"][0]) if isinstance(x, int)]
+                    plain = [f.locals[x] for x in chain if "(" not in f.locals[x] and not any(t in f.locals[x] for t in ("Option", "IntoIter", "Iter<", "Vec<", "ControlFlow", "Result"))]
+                    if plain and all(("str" in t or "String" in t or "GroupId" in t) for t in plain):
+                        bad = []
                 badp = []
                 for g, l in params:
                     ty = g.locals[l]
